@@ -354,3 +354,56 @@ if __name__ == "__main__":
     import sys
     if "--freeze" in sys.argv:
         freeze_waste()
+
+
+TAKERS = re.compile(r"trivia_util::take_(leading|trailing)_comments$|trivia_util::take_(leading|trailing)_trivia$")
+
+
+def rule_take(ctx, prop):
+    """take_*_comments strips the comments off a node and hands them back: the caller now owns them"""
+    rep = Report(prop, "R-TAKE", "the comment vector returned by take_leading_comments / take_trailing_comments (/ take_*_trivia) is "
+                                 "consumed - appended, extended, chained, passed on - on every path from the call to the function's "
+                                 "return: comments taken off a node are never left behind under a condition")
+    for cfg, prog in ctx.programs.items():
+        n = 0
+        for f in prog.fns("stylua_lib"):
+            if not f.path.startswith("formatters::"):
+                continue
+            rets = [bi for bi, b in enumerate(f.blocks) if b["term"]["k"] == "return"]
+            for b, t in f.calls():
+                c = callee(t)
+                if not TAKERS.search(c) or not t.get("dst") or t["dst"].get("p"):
+                    continue
+                d = t["dst"]["l"]
+                ex = []
+                for bi, si, s in f.stmts():
+                    if s["k"] == "assign" and s["rv"]["k"] == "use" and not is_const(s["rv"]["o"]) and not s["dst"].get("p"):
+                        pl = op_place(s["rv"]["o"])
+                        if pl["l"] == d and pl.get("p") == [{"f": "1"}]:
+                            ex.append((bi, s["dst"]["l"]))
+                n += 1
+                if not ex:
+                    # the pair is passed on whole (returned, or destructured elsewhere): judged where it is taken apart
+                    whole = _use_blocks(f, d)
+                    ok = bool(whole)
+                    rep.inst(f"{f.key} {c.split('::')[-1]} result handed on whole", None, cfg, ok=ok)
+                    if not ok:
+                        rep.violation(f"{f.key} taken-comments-discarded {c.split('::')[-1]}",
+                                      f"{f.path} calls {c} and never looks at the returned comments: they are deleted", f.loc(t["sp"]), cfg)
+                    continue
+                dropped = False
+                for bi, l in ex:
+                    U = _use_blocks(f, l)
+                    if bi in U:
+                        continue
+                    reach = f.reach_from(bi, avoid=U)
+                    if any(r in reach for r in rets):
+                        dropped = True
+                rep.inst(f"{f.key} comments from {c.split('::')[-1]} are consumed on every path", {"at": f.loc(t["sp"])}, cfg, ok=not dropped)
+                if dropped:
+                    rep.violation(f"{f.key} taken-comments-dropped-on-a-path {c.split('::')[-1]}",
+                                  f"{f.path} takes the comments off a node with {c.split('::')[-1]} and has a path to its return on which "
+                                  f"the returned vector is not used (it is re-attached only under a condition): on that path the "
+                                  f"comments are deleted from the output", f.loc(t["sp"]), cfg)
+        rep.floor("take_*_comments call sites", n, 6, cfg)
+    return rep
